@@ -176,7 +176,7 @@ def run(ctx):
     loops = [n for n in ast.walk(si.node) if isinstance(n, ast.For)]
     ok = any('sanitize_registry[frontend].items()' in ast.unparse(l.iter) for l in loops) and \
         any('source.splitlines(keepends=True)' in ast.unparse(l.iter) for l in loops) and \
-        'new_source += rule.filter(line, lineno=ll)' in src and 'pp_info[name] = rule.info' in src and 'rule.reset()' in src
+        X.has(src, 'new_source += rule.filter(line, lineno=ll)') and X.has(src, 'pp_info[name] = rule.info') and X.has(src, 'rule.reset()')
     (ctx.judge('R3', 'sanitize_input loop') if ok else
      ctx.violation('R3', 'sanitize_input', si.where, 'rule application loop altered (not every line / rule, or info not stored)'))
     inner = [l for l in loops if 'splitlines' in ast.unparse(l.iter)]
@@ -184,7 +184,7 @@ def run(ctx):
         ctx.violation('R3', 'sanitize_input:skip', si.where, 'some lines are skipped by the rule application loop')
     flt = m.get_function(FILE, 'PPRule.filter')
     fsrc = ast.unparse(flt.node)
-    ok = 'self._info[lineno] += [info.groupdict()]' in fsrc and 'self.match.sub(self.replace, line)' in fsrc
+    ok = X.has(fsrc, 'self._info[lineno] += [info.groupdict()]') and X.has(fsrc, 'self.match.sub(self.replace, line)')
     (ctx.judge('R3', 'PPRule.filter records every match') if ok else
      ctx.violation('R3', 'PPRule.filter', flt.where, 'filter does not record the group dict of every match before substituting'))
 
@@ -222,7 +222,7 @@ def run(ctx):
                 ctx.violation('R4', f'PPRule.{mem.name}:mutates-shared-record', f'{PP.module.relpath}:{n.lineno}',
                               f'`{hit}` mutates the record object that sanitize_input has already handed out as pp_info of an earlier source')
     si_src = ast.unparse(m.get_function(FILE, 'sanitize_input').node)
-    ctx.judge('R4', 'sanitize_input hands out rule.info', nontrivial='pp_info[name] = rule.info' in si_src)
+    ctx.judge('R4', 'sanitize_input hands out rule.info', nontrivial=X.has(si_src, 'pp_info[name] = rule.info'))
 
 
 MUTANTS = [
